@@ -33,21 +33,44 @@ def extract():
     arg = read_repo(F_ARG)
     m = need(re.search(r"pub enum NonConstantValueInner<TLocation> \{[^}]*?Integer\((i8|i16|i32|i64|i128|u8|u16|u32|u64|u128)\)", arg, re.S), "NonConstantValueInner::Integer payload type")
     ty = m.group(1)
+    payload_ty = ty
     fn = re.sub(r"\s+", " ", re.sub(r"//[^\n]*", "", extract_fn(read_repo(F_PARSE), "parse_non_constant_value")))
     i = fn.find("IsographLangTokenKind::IntegerLiteral")
     if i < 0:
         raise Inconclusive("encoding not regenerable: no IntegerLiteral alternative in parse_non_constant_value")
     j = fn.find("to_control_flow", i)
     site = fn[i:j if j > 0 else len(fn)]
-    if re.search(r"number\.parse\(\)\.(expect\(\"[^\"]*\"\)|unwrap\(\))", site) or re.search(r"\.parse::<\w+>\(\)\.(expect\(|unwrap\(\))", site):
+    INT_TY = r"(i8|i16|i32|i64|i128|u8|u16|u32|u64|u128)"
+    parses = list(re.finditer(r"number\.parse(?:::<%s>)?\(\)" % INT_TY, site))
+    if len(parses) != 1:
+        raise Inconclusive("encoding not regenerable: %d conversions of the literal text in the integer alternative" % len(parses))
+    pm = parses[0]
+    parse_ty = pm.group(1) or ty
+    after, before = site[pm.end():], site[:pm.start()]
+    m_unwrap = re.match(r" ?\.(expect\( ?\"[^\"]*\",? ?\)|unwrap\(\))", after)
+    if m_unwrap:
         mode = "panic-on-error"
-    elif re.search(r"match number\.parse::<%s>\(\) \{ Ok\(\w+\) => NonConstantValue::Integer\(\w+\)\.wrap_ok\(\), Err\(_\) => Diagnostic::new\(" % ty, site):
+        after_rest = after[m_unwrap.end():]
+    elif before.endswith("match ") and re.match(r" \{ Ok\(\w+\) => .*?Err\(_\) => Diagnostic::new\(", after):
         mode = "diagnostic-on-error"
+        after_rest = after
+    elif re.match(r" ?\.map_err\(\|_\w*\| Diagnostic::new\(.*?\)\)\?", after):
+        mode = "diagnostic-on-error"
+        after_rest = after
     else:
         raise Inconclusive("encoding not regenerable: the integer conversion has an unrecognised shape: " + site[:300])
+    # no other panic source may hide in the alternative
+    extra = re.findall(r"\.unwrap\(\)|\.expect\(|panic!|unreachable!|todo!|unimplemented!|\w\[[^\]]*\]", before + after_rest)
+    if extra:
+        raise Inconclusive("encoding not regenerable: further potential panic sites in the integer alternative: %r" % extra[:3])
+    if parse_ty != ty:
+        # a narrowing step to the payload type must follow, with its failure handled
+        if not re.search(r"match %s::try_from\(\w+\) \{ Ok\(\w+\) => NonConstantValue::Integer\(\w+\)\.wrap_ok\(\), Err\(_\) => Diagnostic::new\(" % ty, after_rest):
+            raise Inconclusive("encoding not regenerable: the literal is parsed as %s but no handled narrowing to %s is recognised" % (parse_ty, ty))
+    ty = parse_ty
     bits = int(ty[1:])
     lo, hi = (-(2 ** (bits - 1)), 2 ** (bits - 1) - 1) if ty[0] == "i" else (0, 2 ** bits - 1)
-    return dict(int_regex=int_re, target_type=ty, lo=lo, hi=hi, mode=mode)
+    return dict(int_regex=int_re, target_type=ty, payload_type=payload_ty, lo=lo, hi=hi, mode=mode)
 
 
 def literal_text(lit):
@@ -71,7 +94,7 @@ def native_parse(binary, lits):
 def main():
     t0 = time.time()
     T_ = tier()
-    B = {"maxlen": 21} if T_ == "quick" else {"maxlen": 40}
+    B = {"maxlen": 45} if T_ == "quick" else {"maxlen": 90}
     violations, known_lines, infra, queries, samples = [], [], [], [], []
     n_valid = 0
     X = None
@@ -89,28 +112,47 @@ def main():
             return z3.If(neg, -mag, mag)
 
         # ---- translator validation: the encoding's verdict (in range / out of range) vs the real parser on boundary literals
-        probes = ["0", "-0", "7", "-5", str(X["hi"]), str(X["lo"]), str(X["hi"] - 1), str(X["lo"] + 1)]
+        pb = int(X["payload_type"][1:])
+        plo, phi = (-(2 ** (pb - 1)), 2 ** (pb - 1) - 1) if X["payload_type"][0] == "i" else (0, 2 ** pb - 1)
+        probes = sorted(set(["0", "-0", "7", "-5", str(X["hi"]), str(X["lo"]), str(X["hi"] - 1), str(X["lo"] + 1), str(phi), str(plo), str(phi - 1), str(plo + 1)]))
         nat = native_parse(binary, probes)
         for pr, r in zip(probes, nat):
             q = Query("C07_validate", simple=True)
             s = z3.String("s")
             q.add(s == S(pr), z3.InRe(s, lit_re))
             q.add(z3.Or(value_of(s) < X["lo"], value_of(s) > X["hi"]))
-            if q.check(cross_check=False) != "unsat" or r != "ok":
+            want_ok = plo <= int(pr) <= phi       # inside the payload type the literal must parse; inside the conversion type it must at least not panic
+            if q.check(cross_check=False) != "unsat" or r == "panic" or (want_ok and r != "ok"):
                 raise Inconclusive("translator validation failed on %r: encoding in-range verdict or real parser (%s) disagree" % (pr, r))
             n_valid += 1
         samples.append({"translator_validation": probes})
 
-        q = Query("C07_integer_literal_panics", solver_timeout_s=120, simple=True)
-        s = z3.String("s")
-        q.add(z3.InRe(s, lit_re), z3.Length(s) <= B["maxlen"])
-        q.add(z3.Or(value_of(s) < X["lo"], value_of(s) > X["hi"]))      # the conversion to the payload type fails
-        q.add(z3.BoolVal(X["mode"] == "panic-on-error"))                # ... and the failure is turned into a panic
-        r = q.check(cross_check=True, cross_timeout_s=60)
-        queries.append(q.summary())
-        log("  integer literal that panics the conversion: %s (mode %s, target %s)" % (r, X["mode"], X["target_type"]))
+        # the literal as explicit decimal digits (linear integer arithmetic; str.to_int over 40+ characters does not terminate in z3):
+        # one query per literal length, every digit and the sign symbolic, shape constrained by the lexer's regex -?(0|[1-9][0-9]*)
+        r, lit = "unsat", None
+        for L in range(1, B["maxlen"] + 1):
+            q = Query("C07_integer_literal_panics_len%d" % L, solver_timeout_s=120, simple=True)
+            neg = z3.Bool("neg")
+            ds = [z3.Int("d%d" % i) for i in range(L)]
+            for d in ds:
+                q.add(d >= 0, d <= 9)
+            if L > 1:
+                q.add(ds[0] >= 1)                                           # no leading zero
+            mag = z3.Sum([ds[i] * (10 ** (L - 1 - i)) for i in range(L)]) if L > 1 else ds[0]
+            val = z3.If(neg, -mag, mag)
+            q.add(z3.Or(val < X["lo"], val > X["hi"]))                       # the conversion fails
+            q.add(z3.BoolVal(X["mode"] == "panic-on-error"))                # ... and the failure is turned into a panic
+            rr = q.check(cross_check=(L in (1, 19, 20, 39, 40)), cross_timeout_s=60)
+            queries.append(q.summary())
+            if rr == "sat":
+                m = q.model()
+                lit = ("-" if z3.is_true(m.eval(neg, model_completion=True)) else "") + "".join(str(m.eval(d, model_completion=True).as_long()) for d in ds)
+                r = "sat"
+                break
+            if rr != "unsat":
+                raise Inconclusive("solver answered %s for literal length %d" % (rr, L))
+        log("  integer literal that panics the conversion: %s (mode %s, conversion type %s, payload %s, %d length queries)" % (r, X["mode"], X["target_type"], X["payload_type"], len(queries)))
         if r == "sat":
-            lit = q.model().eval(s, model_completion=True).as_string()
             res = native_parse(binary, [lit])[0]
             samples.append({"literal": lit, "native": res})
             if res == "panic":
@@ -127,7 +169,7 @@ def main():
                 infra.append("model %r does not reproduce natively (parser result: %s)" % (lit, res))
         else:
             # the handled path must really be handled: out-of-range literals give a diagnostic natively
-            over = [str(X["hi"] + 1), str(X["lo"] - 1), "9" * 30]
+            over = [str(X["hi"] + 1), str(X["lo"] - 1), "9" * 30, str(2 ** 63), str(-2 ** 63 - 1), str(2 ** 64), str(2 ** 127), str(2 ** 128), "-" + "9" * 60]
             res = native_parse(binary, over)
             samples.append({"out_of_range_literals": over, "native": res})
             if "panic" in res:
@@ -142,8 +184,8 @@ def main():
                        "re-read from source; z3 decides whether an accepted literal can fail the conversion while the failure is unwrapped; the model is replayed through the real parser.",
         "functions_encoded": ["IsographLangTokenKind::IntegerLiteral regex", "parse_non_constant_value (integer alternative)", "NonConstantValueInner::Integer payload type"],
         "extracted": X, "source_fingerprint": repo_fingerprint([F_TOK, F_PARSE, F_ARG]),
-        "bounds": dict(B, literals="every literal of the lexer's integer language up to maxlen characters"),
-        "queries": queries, "queries_discharged": len(queries), "solver_time_s": round(sum(q["solver_s"] for q in queries), 2),
+        "bounds": dict(B, literals="every literal of the lexer's integer language with at most maxlen digits, either sign"),
+        "queries": queries[:3] + queries[-3:], "queries_discharged": len(queries), "solver_time_s": round(sum(q["solver_s"] for q in queries), 2),
         "translator_validation_inputs_agreeing": n_valid,
         "evaluations": len(queries) + n_valid, "distinct_nontrivial": max(2, n_unsat + len(samples)),
         "rule": "evaluations = SMT queries + boundary literals on which the encoding and the real parser agree; distinct_nontrivial = unsat queries + replayed literals (boundary set has 8 distinct literals)",
